@@ -1,7 +1,10 @@
 package main
 
 import (
+	"bufio"
+	"bytes"
 	"fmt"
+	"regexp"
 	"go/token"
 	"go/types"
 	"strconv"
@@ -1040,4 +1043,73 @@ func (ex *Explorer) pkgGlobal(pkg, name string) *ssa.Global {
 		}
 	}
 	panic("global not found: " + pkg + "." + name)
+}
+
+// ---- regexp (native on concrete strings) and bufio.Scanner (line splitting over an interpreted reader)
+
+type scannerVal struct {
+	lines []string
+	i     int
+}
+
+func init() {
+	stubs["regexp.MustCompile"] = func(m *Machine, fr *frame, fn *ssa.Function, a []Val) Val {
+		return regexp.MustCompile(cStr(m, a[0], "regexp.MustCompile"))
+	}
+	stubs["(*regexp.Regexp).MatchString"] = func(m *Machine, fr *frame, fn *ssa.Function, a []Val) Val {
+		return a[0].(*regexp.Regexp).MatchString(cStr(m, a[1], "MatchString"))
+	}
+	stubs["(*regexp.Regexp).FindStringSubmatch"] = func(m *Machine, fr *frame, fn *ssa.Function, a []Val) Val {
+		r := a[0].(*regexp.Regexp).FindStringSubmatch(cStr(m, a[1], "FindStringSubmatch"))
+		if r == nil {
+			return Slice(nil)
+		}
+		return strSliceVal(r)
+	}
+	stubs["bufio.NewScanner"] = func(m *Machine, fr *frame, fn *ssa.Function, a []Val) Val {
+		r := a[0].(Iface)
+		rf := m.lookupMethod(r.T, "Read")
+		if rf == nil {
+			inconclusive("bufio.NewScanner: reader without Read")
+		}
+		var data []byte
+		for k := 0; k < 64; k++ {
+			buf := make(Slice, 256)
+			for i := range buf {
+				buf[i] = int64(0)
+			}
+			res := m.callSSA(fr, token.NoPos, rf, []Val{r.V, buf}, nil).(Tuple)
+			n := int(cInt(m, res[0], "Read result"))
+			b, ok := cBytes(m, buf[:n], "scanner input")
+			if !ok {
+				inconclusive("bufio.Scanner over symbolic bytes")
+			}
+			data = append(data, b...)
+			if e, _ := res[1].(Iface); e.T != nil || n == 0 {
+				break
+			}
+		}
+		sc := bufio.NewScanner(bytes.NewReader(data))
+		sv := &scannerVal{}
+		for sc.Scan() {
+			sv.lines = append(sv.lines, sc.Text())
+		}
+		return sv
+	}
+	stubs["(*bufio.Scanner).Scan"] = func(m *Machine, fr *frame, fn *ssa.Function, a []Val) Val {
+		sv := a[0].(*scannerVal)
+		if sv.i < len(sv.lines) {
+			sv.i++
+			return true
+		}
+		return false
+	}
+	stubs["(*bufio.Scanner).Text"] = func(m *Machine, fr *frame, fn *ssa.Function, a []Val) Val {
+		sv := a[0].(*scannerVal)
+		if sv.i == 0 || sv.i > len(sv.lines) {
+			return ""
+		}
+		return sv.lines[sv.i-1]
+	}
+	stubs["(*bufio.Scanner).Err"] = func(m *Machine, fr *frame, fn *ssa.Function, a []Val) Val { return Iface{} }
 }
